@@ -8,6 +8,7 @@ SCHEMA = f'''<xs:schema {XS} targetNamespace="urn:t" xmlns:t="urn:t" elementForm
       <xs:element name="name" type="xs:token"/><xs:element name="qty" type="xs:positiveInteger"/>
       <xs:element name="kind" type="xs:token" fixed="article" minOccurs="0"/>
       <xs:element name="val" minOccurs="0"/>
+      <xs:element name="mark" minOccurs="0"><xs:complexType><xs:attribute name="m" type="xs:int"/></xs:complexType></xs:element>
       <xs:element name="sub" minOccurs="0" maxOccurs="unbounded"><xs:complexType><xs:sequence>
           <xs:element name="leaf" type="xs:int" minOccurs="0" maxOccurs="3"/></xs:sequence>
           <xs:attribute name="ref" type="xs:IDREF"/><xs:attribute name="codeRef" type="xs:int"/></xs:complexType></xs:element>
@@ -30,14 +31,15 @@ def gen(rng, nitems):
     for i in range(nitems):
         subs = ''.join(f'<t:sub ref="i{rng.randrange(nitems)}" codeRef="{rng.randrange(nitems)}">' + ''.join(f'<t:leaf>{rng.randrange(9)}</t:leaf>' for _ in range(rng.randrange(3))) + '</t:sub>'
                        for _ in range(rng.randrange(3)))
-        items.append(f'<t:item id="i{i}" code="{i}"' + (' lang="en"' if rng.random() < .3 else '') + f'><t:name>n{i}</t:name><t:qty>{i + 1}</t:qty>' + (rng.choice(['<t:kind>article</t:kind>', '<t:kind> article </t:kind>', '<t:kind/>']) if rng.random() < .4 else '') + f'{subs}</t:item>')
+        items.append(f'<t:item id="i{i}" code="{i}"' + (' lang="en"' if rng.random() < .3 else '') + f'><t:name>n{i}</t:name><t:qty>{i + 1}</t:qty>' + (rng.choice(['<t:kind>article</t:kind>', '<t:kind> article </t:kind>', '<t:kind/>']) if rng.random() < .4 else '') + (rng.choice(['<t:mark m="1"/>', '<t:mark/>']) if rng.random() < .3 else '') + f'{subs}</t:item>')
     # a key reference held by the root element itself (collected when the root is processed: last, in a lazy run)
     first = f' first="{rng.randrange(nitems)}"' if rng.random() < .5 else ''
     return f'<t:r xmlns:t="urn:t"{first}>' + ''.join(items) + '</t:r>'
 
 
 FAULTS = [(' first="', ' first="98'), ('>article<', '>service<'), ('qty>', 'qty>x'), ('code="0"', 'code="1"'), ('ref="i0"', 'ref="zz"'), ('codeRef="1"', 'codeRef="77"'), ('<t:name>', '<t:bogus/><t:name>'), (' id="i1"', ''), ('</t:item>', '<o:extra xmlns:o="urn:o"/></t:item>'),
-          ('<t:leaf>1', '<t:leaf>q'), ('code="1"', 'code="0"'), ('<t:qty>', '<t:qty extra="1">'), ('</t:item>', '<t:name>dup</t:name></t:item>')]
+          ('<t:leaf>1', '<t:leaf>q'), ('code="1"', 'code="0"'), ('<t:qty>', '<t:qty extra="1">'), ('</t:item>', '<t:name>dup</t:name></t:item>'),
+          ('<t:mark m="1"/>', '<t:mark m="1"><t:bogus/></t:mark>'), ('<t:mark/>', '<t:mark>text</t:mark>')]
 
 
 def faulty(rng, doc, k):
